@@ -13,7 +13,7 @@ try:
     known = {k["key"] for k in core.load_known().get("findings", []) if k.get("status") == "open"}
     for prop in props:
         mod = importlib.import_module("rules." + prop)
-        for cfg in getattr(mod, "CONFIGS_QUICK", ["Q"]):
+        for cfg in (os.environ.get("VERIF_CFGS", "").split() or getattr(mod, "CONFIGS_QUICK", ["Q"])):
             ctx = core.Ctx(prop, "quick", repo=scratch)
             ctx.cfg = cfg
             try:
